@@ -37,6 +37,7 @@ import (
 	"github.com/restic/restic/internal/verifshim/crashx"
 	"github.com/restic/restic/internal/verifshim/gatebe"
 	"github.com/restic/restic/internal/verifshim/oracle"
+	"github.com/restic/restic/internal/verifshim/vfileio"
 	"github.com/restic/restic/internal/verifshim/vh"
 	"github.com/restic/restic/internal/verifshim/xplore"
 )
@@ -44,11 +45,13 @@ import (
 const verifC11PackSize = 8 * 1024
 
 type verifC11Fixture struct {
-	base    gatebe.State
-	sem     crashx.SemFn
-	expect  oracle.Expect // previously acknowledged snapshot
-	srcDir  string
-	srcWant oracle.Content // content model of a snapshot of srcDir
+	base     gatebe.State
+	sem      crashx.SemFn
+	expect   oracle.Expect // previously acknowledged snapshot
+	srcDir   string
+	srcWant  oracle.Content // content model of a snapshot of srcDir
+	twinDir  string         // a source in which every file content occurs twice (variant tempfile-fails)
+	twinWant oracle.Content
 }
 
 func verifC11Write(t *testing.T, dir string, files map[string][]byte) oracle.Content {
@@ -108,6 +111,13 @@ func verifC11Build(t *testing.T, r *vh.Run, thorough bool) *verifC11Fixture {
 		files["big"] = oracle.LCG(15, 700*1024) // larger than the minimal chunk size: one or two big blobs, own pack
 	}
 	fx.srcWant = verifC11Write(t, fx.srcDir, files)
+	// every content twice, none of it in the repository yet: whichever blob fails to be stored, another
+	// file refers to the same blob
+	fx.twinDir = filepath.Join(r.Scratch, "twins")
+	fx.twinWant = verifC11Write(t, fx.twinDir, map[string][]byte{
+		"p1": oracle.LCG(31, 3000), "p2": oracle.LCG(32, 5000), "p3": oracle.LCG(33, 6000),
+		"t/p1": oracle.LCG(31, 3000), "t/p2": oracle.LCG(32, 5000), "t/p3": oracle.LCG(33, 6000),
+	})
 
 	repo, store, err := oracle.NewRepo(ctx, 2, repository.Options{})
 	if err != nil {
@@ -127,15 +137,22 @@ func verifC11Build(t *testing.T, r *vh.Run, thorough bool) *verifC11Fixture {
 	return fx
 }
 
+// verifC11Lenient: the error callback reports and continues, as cmd/restic's does (the backup is then
+// "incomplete", exit status 3, but a snapshot is written).
+var verifC11Lenient bool
+
 func verifC11Backup(ctx context.Context, repo *repository.Repository, dir string, tm time.Time) (restic.ID, error) {
 	arch := archiver.New(repo, fs.NewLocal(), archiver.Options{})
 	arch.Error = func(item string, err error) error { return err }
+	if verifC11Lenient {
+		arch.Error = func(item string, err error) error { return nil }
+	}
 	_, id, _, err := arch.Snapshot(ctx, []string{dir}, archiver.SnapshotOptions{Time: tm, Hostname: "verifhost", Tags: []string{"new"}})
 	return id, err
 }
 
 // verifC11Listed checks every snapshot present in the state that is not the old one.
-func verifC11Listed(ctx context.Context, st gatebe.State, fx *verifC11Fixture) []string {
+func verifC11Listed(ctx context.Context, st gatebe.State, fx *verifC11Fixture, readableOnly bool) []string {
 	var probs []string
 	repo, _, err := oracle.Open(ctx, st, oracle.Password)
 	if err != nil {
@@ -165,6 +182,9 @@ func verifC11Listed(ctx context.Context, st gatebe.State, fx *verifC11Fixture) [
 			probs = append(probs, fmt.Sprintf("snapshot %v present but its data is not: %v", id.Str(), err))
 			continue
 		}
+		if readableOnly {
+			continue // an incomplete snapshot may lack the items that failed; it must be readable (checked above)
+		}
 		if ok, why := fx.srcWant.Equal(got); !ok {
 			probs = append(probs, fmt.Sprintf("snapshot %v content differs from the source tree: %s", id.Str(), why))
 		}
@@ -189,7 +209,7 @@ func TestVerif_C11(t *testing.T) {
 		ctx    context.Context
 		id     restic.ID
 	}
-	for _, variant := range []string{"plain", "cancel", "slow-upload"} {
+	for _, variant := range []string{"plain", "cancel", "slow-upload", "tempfile-fails"} {
 		variant := variant
 		sc := crashx.Scenario{
 			Property: "C11", Name: "backup/" + variant, Base: fx.base, Sem: fx.sem,
@@ -217,14 +237,34 @@ func TestVerif_C11(t *testing.T) {
 			},
 			Op: func(ctx context.Context, run *crashx.Run, prepared any) error {
 				p := prepared.(*prep)
-				id, err := verifC11Backup(p.ctx, p.repo, fx.srcDir, tm)
+				if variant == "tempfile-fails" {
+					// a local failure instead of a backend failure: creating the temporary pack file fails
+					// (ENOSPC, EMFILE, TMPDIR gone) - an environment answer at every creation; the error
+					// callback continues like cmd/restic's
+					verifC11Lenient = true
+					n := 0
+					vfileio.Hook = func(prefix string) error {
+						n++
+						if run.X.Gate(xplore.Event{Key: fmt.Sprintf("op:TempFile#%d", n), Proc: "op", Kind: "TempFile", Alts: []string{"ok", "err"}}) == 1 {
+							run.Faulted = true
+							return fmt.Errorf("C11: no space left on device (injected)")
+						}
+						return nil
+					}
+					defer func() { vfileio.Hook = nil; verifC11Lenient = false }()
+				}
+				src := fx.srcDir
+				if variant == "tempfile-fails" {
+					src = fx.twinDir
+				}
+				id, err := verifC11Backup(p.ctx, p.repo, src, tm)
 				p.id = id
 				return err
 			},
 			NoFaultFailureIsViolation: variant != "cancel",
 			StateOracle: func(ctx context.Context, c crashx.Crash) []string {
 				probs := oracle.Verify(ctx, c.State, oracle.Password, fx.expect, oracle.VerifyOpts{ReadData: true})
-				probs = append(probs, verifC11Listed(ctx, c.State, fx)...)
+				probs = append(probs, verifC11Listed(ctx, c.State, fx, variant == "tempfile-fails")...)
 				if len(probs) > 0 {
 					return probs
 				}
@@ -290,10 +330,22 @@ func TestVerif_C11(t *testing.T) {
 					return nil
 				}
 				exp := oracle.Expect{p.id: fx.srcWant}
+				if variant == "tempfile-fails" {
+					exp = oracle.Expect{p.id: fx.twinWant}
+					if run.Faulted {
+						// an incomplete snapshot: what it contains is not prescribed, but everything it refers to
+						// must be stored and indexed (check --read-data over all snapshots, every snapshot readable)
+						exp = oracle.Expect{}
+					}
+				}
 				for k, v := range fx.expect {
 					exp[k] = v
 				}
-				return oracle.Verify(ctx, run.Store.Snapshot(), oracle.Password, exp, oracle.VerifyOpts{ReadData: true})
+				probs := oracle.Verify(ctx, run.Store.Snapshot(), oracle.Password, exp, oracle.VerifyOpts{ReadData: true})
+				if variant == "tempfile-fails" {
+					probs = append(probs, verifC11Listed(ctx, run.Store.Snapshot(), fx, true)...)
+				}
+				return probs
 			},
 		}
 		if variant == "slow-upload" {
@@ -304,6 +356,10 @@ func TestVerif_C11(t *testing.T) {
 			sc.Backend = func(be *gatebe.Backend) { be.Conns = 1 }
 			sc.TimeAction = true
 			sc.TimeQuantum = 11 * time.Minute
+		}
+		if variant == "tempfile-fails" {
+			sc.Faults = []string{"ok"}
+			sc.Backend = nil
 		}
 		if variant == "cancel" {
 			// context cancellation as a scenario action at every point (one deviation); faults off in this variant
